@@ -63,6 +63,12 @@ func (s colorizeToolS) wrapColorAndBg(text string, clr, bg color.Color) string {
 	if bg != clrNone {
 		s.echoBgColor(&sb, bg)
 	}
+	if clr == clrNone {
+		// no foreground color: "\x1b[-1m" is not a valid sequence
+		_, _ = sb.WriteString(text)
+		s.echoResetColor(&sb)
+		return sb.String()
+	}
 	color.WrapColorTo(&sb, clr, text)
 	return sb.String()
 }
